@@ -766,7 +766,8 @@ class DlgWorld:
 
         self.root = Manager()
         self.poller = getattr(pollers, pname)().register(self.root)
-        self.server = TCPServer(('127.0.0.1', 0)).register(self.root)
+        from vlib.netwait import retry_addr_in_use
+        self.server = retry_addr_in_use(lambda: TCPServer(('127.0.0.1', 0))).register(self.root)
         Observer().register(self.root)
         for _ in range(20):
             if not len(self.root):
